@@ -291,7 +291,7 @@ def _listify(t: Any) -> Any:
 def judge(ctx: core.Ctx, case: dict[str, Any]) -> None:
     sources = dict(case["partials"])
     sources["main"] = case["main"]
-    env = drv.make_env({"extra": True, "mode": case.get("mode", "strict")}, loader=DictLoader(dict(case["partials"])), base=MonEnv)
+    env = drv.make_env({"extra": True, "mode": case.get("mode", "strict"), "flags": case.get("flags") or {}}, loader=DictLoader(dict(case["partials"])), base=MonEnv)
     o = drv.call(env.from_string, case["main"], name="main")
     if not o.ok:
         ctx.count("parse_error_skipped")
@@ -473,13 +473,21 @@ def gen_matrix(rng) -> dict[str, Any]:
 
 
 def gen_generic(rng) -> dict[str, Any]:
-    cfg = tpl.GenCfg(extra=True, max_nodes=16, wild=0.03, var_partial_name=False)
+    fl = rng.random() < 0.5  # the optional expression syntaxes: their expression classes report their own children
+    cfg = tpl.GenCfg(extra=True, max_nodes=16, wild=0.03, var_partial_name=False, ternary=fl, logical_not=fl, parens=fl)
     main, partials, _ = tpl.gen_template_set(rng, cfg, 2)
     st = tpl.Style(wc=0.05)
     msrc = tpl.print_nodes(main, st, rng)
     psrc = {k: tpl.print_nodes(v, st, rng) for k, v in partials.items()}
     datas = [V.enc(tpl.make_data(rng, hostile=0.0, drop=0.15)) for _ in range(3)]
-    return {"kind": "generic", "main": msrc, "partials": psrc, "datas": datas, "async": rng.random() < 0.3, "async_analysis": rng.random() < 0.3, "mode": "lax" if rng.random() < 0.3 else "strict"}
+    c = {"kind": "generic", "main": msrc, "partials": psrc, "datas": datas, "async": rng.random() < 0.3, "async_analysis": rng.random() < 0.3, "mode": "lax" if rng.random() < 0.3 else "strict"}
+    if fl:
+        c["flags"] = {"ternary_expressions": True, "logical_not_operator": True, "logical_parentheses": True}
+        if rng.random() < 0.5:
+            # every slot of a ternary with a tail filter reads its own variable
+            c["main"] += rng.choice(["{{ g1 if m else s | append: t || prepend: n }}", "{{ s | append: g1 if xs.first else t | prepend: m || append: h.a | default: n }}",
+                                     "{% assign tv = 'a' if not (m or b) else 'b' | append: f || append: z %}{{ tv }}", "{% echo s if (m and b) else t | upcase || append: xs[0] %}"])
+    return c
 
 
 def cases(ctx: core.Ctx):
